@@ -451,6 +451,13 @@ def adversarial_handmade():
     out.append(_R("Xor", _R("All", shg, c), _R("Imply", shg, x), _R("Not", _R("All", shg, y))))
     return out
 
+def _cap(ctx, cs, r, cap=60000):
+    """every state of a universe is model-checked by TLC; at most `cap` of them are replayed into the library (memory: the events of one
+    check are held by one process)"""
+    if len(cs) <= cap: return cs
+    ctx.notes.append("a seeded sample of %d of the %d enumerated models of one universe is replayed (all are model-checked by TLC)" % (cap, len(cs)))
+    return ctx.rng.sample(cs, cap)
+
 def run_c10(ctx):
     q = ctx.tier == "quick"
     A = lambda lo, hi: LEAF("a", lo, hi)
@@ -458,20 +465,20 @@ def run_c10(ctx):
     u1 = universe(ctx.tier, ["Any", "AtLeast"], leaves=[A(0, 1), A(0, 3), A(1, 2), LEAF("b"), LEAF("P")], values=[1, 2], signs=(0,),
                   ids=("gen", "exp"), exp_ids=("P", "Q"), comp=2, kids=2)
     r = ctx.model_check("PuanBuild", u1, invariants=["C10"], dump=True, name="Build_C10_adv")
-    cases += spec_cases(ctx, r)
+    cases += _cap(ctx, spec_cases(ctx, r), r)
     u2 = universe(ctx.tier, ["Any", "AtLeast"], leaves=[A(-1, 3), A(-2, 3), LEAF("b")] + ([] if q else [A(-1, 0), A(-2, 0), LEAF("P")]), values=[1, 2], signs=(0, -1) if not q else (0,),
                   ids=("gen", "exp"), exp_ids=("P", "Q"), comp=2, kids=2)
     r = ctx.model_check("PuanBuild", u2, invariants=["C10"], dump=True, name="Build_C10_adv_neg")
-    cases += spec_cases(ctx, r)
+    cases += _cap(ctx, spec_cases(ctx, r), r)
     # twins: two definitions of one id (opposite signs over symmetric ranges, different values, bounds with equal sums) under different parents
     u4 = universe(ctx.tier, ["AtLeast"], leaves=[LEAF("t", -2, 2), LEAF("b"), A(0, 3), A(1, 2)] if not q else [LEAF("t", -2, 2), LEAF("b"), A(0, 3)], values=[-2, -1, 1],
                   signs=(1, -1), ids=("exp",) if q else ("gen", "exp"), exp_ids=("P",), comp=2, kids=2)
     r = ctx.model_check("PuanBuild", u4, invariants=["C10"], dump=True, name="Build_C10_twins")
-    cases += spec_cases(ctx, r)
+    cases += _cap(ctx, spec_cases(ctx, r), r)
     u3 = universe(ctx.tier, ["Any", "All"] if q else ["Any", "All", "AtMost"], leaves=[LEAF("a"), LEAF("b"), LEAF("c")] if not q else [LEAF("a"), LEAF("b")], values=[1],
                   signs=(0,), ids=("gen", "exp"), comp=3, kids=2)
     r = ctx.model_check("PuanBuild", u3, invariants=["C10"], dump=True, name="Build_C10_dag")
-    cases += spec_cases(ctx, r)
+    cases += _cap(ctx, spec_cases(ctx, r), r)
     cases += [{"recipe": x, "src": "handmade"} for x in adversarial_handmade()]
     cases += random_cases(ctx, 400 if q else 5000, ["shared_sub", "depth>=3", "kids>=4", "explicit_id", "generated_id"], max_box=1 << 20)
     # copies of one named sub-proposition whose children are spelled differently (bare ids / variable objects, mixed within a node)
